@@ -9,7 +9,8 @@ pipemap.install()      # shape-map runs (cfg["smap"]) go through Model.RunMap / 
 
 class Spec(pipeprops.PropSpec):
     pid = "C02"
-    theorems = "C02_keys_iff_threshold, C02_no_duplicate_key (see Props/C02.v)"
+    theorems = "see Props/C02.v (names are read from the file at run time)"
+    uses_bin64 = True
     projection = staticmethod(pipeprops.proj_keys)
     projection_name = "per shape: label, instance count, list of (direction, predicate, value class) keys"
     rule = ("graphs as C01 x thresholds on every k/n boundary of the class sizes present plus 0, 1, 0.5, 0.51, 1/3, 2/3 "
